@@ -133,6 +133,18 @@ class Program:
                 with open(path, encoding="utf-8") as f:
                     src = f.read()
                 self.modules[name] = Module(name, path, os.path.relpath(path, self.root), src, is_pkg)
+        # whole-package normalisation (needs every module parsed): optional collaborators nobody injects
+        from .normalise import eliminate_optional_collaborators
+
+        for _round in range(4):  # one candidate per function and pass
+            got = eliminate_optional_collaborators({m.name: m.tree for m in self.modules.values()})
+            if not got:
+                break
+            for m in self.modules.values():
+                for n in ast.walk(m.tree):
+                    if not hasattr(n, "_file"):
+                        n._file = m.relpath
+            self.__dict__.setdefault("collaborators_read_as_default", []).extend(got)
         setup = os.path.join(self.root, "setup.py")
         if os.path.exists(setup):
             with open(setup, encoding="utf-8") as f:
@@ -234,6 +246,18 @@ class Program:
                         mod.defs[t.id] = st
             elif isinstance(st, ast.AnnAssign) and isinstance(st.target, ast.Name):
                 mod.defs[st.target.id] = st
+            elif isinstance(st, (ast.If, ast.Try)):
+                # names bound in a top-level `if TYPE_CHECKING: ... else: ...` / `try: import ... except ImportError:`
+                # block are module names too (any arm may have bound them)
+                for sub in ast.walk(st):
+                    if isinstance(sub, (ast.FunctionDef, ast.AsyncFunctionDef, ast.ClassDef, ast.Lambda)):
+                        continue
+                    if isinstance(sub, ast.Assign):
+                        for t in sub.targets:
+                            if isinstance(t, ast.Name):
+                                mod.defs.setdefault(t.id, sub)
+                    elif isinstance(sub, ast.AnnAssign) and isinstance(sub.target, ast.Name):
+                        mod.defs.setdefault(sub.target.id, sub)
 
     def _index_fields(self, cls: ClassInfo):
         for fis in cls.methods.values():
@@ -261,10 +285,17 @@ class Program:
                             ty = None
                             if ann is not None:
                                 ty = self._type_of_annotation(cls.module, ann)
-                            if ty is None and isinstance(value, ast.Call):
-                                r = self.resolve(cls.module, value.func)
-                                if r in self.classes:
-                                    ty = r
+                            # `C() if given is None else given`  /  `given or C()`: one arm says the class
+                            arms = [value]
+                            if isinstance(value, ast.IfExp):
+                                arms = [value.body, value.orelse]
+                            elif isinstance(value, ast.BoolOp):
+                                arms = list(value.values)
+                            for arm in arms:
+                                if ty is None and isinstance(arm, ast.Call):
+                                    r = self.resolve(cls.module, arm.func)
+                                    if r in self.classes:
+                                        ty = r
                             if ty is None and isinstance(value, ast.Name):
                                 # parameter with an annotation
                                 for a in fi.node.args.args + fi.node.args.kwonlyargs:
